@@ -36,7 +36,7 @@ from . import e2_formula as F
 from . import op4_model as M
 from .core import Unsupported
 from .e1_srcmodel import dotted
-from .e2_eval import AutoEvaluator, Unknown, is_unknown, need
+from .e2_eval import AutoEvaluator, DictValue, Unknown, is_unknown, need
 
 FILE = F.sym("self._fileh")
 ZERO = F.const(0)
@@ -360,6 +360,8 @@ def phi(c, a, b):
     """value of a local after `if c: <a> else: <b>`"""
     if a is None or b is None:
         return Unknown("bound in one arm of an `if` only")
+    if isinstance(a, DictValue) or isinstance(b, DictValue):
+        return a if a is b else Unknown("a lookup table bound differently in the two arms of an `if`")
     if isinstance(a, tuple) or isinstance(b, tuple):
         if isinstance(a, tuple) and isinstance(b, tuple) and len(a) == len(b):
             return tuple(phi(c, x, y) for x, y in zip(a, b))
@@ -1056,6 +1058,19 @@ class CEval(AutoEvaluator):
             if isinstance(cv, tuple):
                 cv = Unknown("test on a tuple")
             return phi(cv, a, b)
+        if isinstance(node, ast.Subscript) and isinstance(node.value, ast.Name) and isinstance(self.env.get(node.value.id), DictValue) \
+                and not isinstance(node.slice, (ast.Slice, ast.Tuple)):
+            # a literal lookup table indexed with a key that is known
+            table = self.env[node.value.id].d
+            k = self._ev(node.slice)
+            key = None
+            if not is_unknown(k) and not isinstance(k, tuple) and k.is_const() and k.const_value().denominator == 1:
+                key = int(k.const_value())
+            elif not is_unknown(k) and not isinstance(k, tuple) and (sym_name(k) or "")[:1] in "'\"":
+                key = ast.literal_eval(sym_name(k))
+            if key is not None and key in table:
+                return table[key]
+            return Unknown(f"key of the literal table {node.value.id} at line {node.lineno}")
         if isinstance(node, ast.Subscript):
             v = super()._ev(node)
             if not is_unknown(v) and not isinstance(v, tuple):
@@ -1079,6 +1094,8 @@ class CEval(AutoEvaluator):
             self.walker.local_funcs[key] = _lambda_def(node)
             return F.sym(key)
         if isinstance(node, ast.Dict):
+            if node.keys and all(isinstance(k, ast.Constant) for k in node.keys):
+                return DictValue({k.value: self.ev(v) for k, v in zip(node.keys, node.values)})      # a literal lookup table
             return F.sym("dict:" + ast.unparse(node))
         return super()._ev(node)
 
@@ -1499,6 +1516,9 @@ class Walker:
             e = ev.env.get(nm)
             if e is None or is_unknown(e):
                 ph[nm] = Unknown(f"`{nm}` is not bound when the loop at line {st.lineno} is entered") if e is None else e
+                continue
+            if isinstance(e, DictValue):
+                ph[nm] = Unknown(f"`{nm}` is a lookup table rebound inside the loop at line {st.lineno}")
                 continue
             if isinstance(e, tuple):
                 try:
